@@ -473,31 +473,37 @@ def _factor_short_intermediate(expr: e.Expr, itmd: EriOrbenergy,
             for overlap, (_, var_idx_list) in zip(overlaps, unique_obj_i):
                 if overlap == min_overlap:
                     rel_variant_indices.extend(var_idx_list)
-        # choose the variant with the minimal itmd_indices
-        variant_data = min(
+        # choose the variant with the minimal itmd_indices, skipping variants
+        # where a contracted index of the itmd also appears in the remainder
+        # of the term: such an index can not be hidden in the intermediate.
+        sorted_variants = sorted(
             [variants[var_idx] for var_idx in rel_variant_indices],
             key=lambda var: [var['sub'].get(s, s).name for s in
                              itmd_default_symbols]
         )
+        variant_data = None
+        for var in sorted_variants:
+            # - extract the remainder that survives the factorization
+            #   (excluding the prefactor)
+            remainder: e.Expr = _get_remainder(term, var['eri_i'],
+                                               var['denom_i'])
+            contracted_itmd_indices = tuple(var['sub'].get(s, s)
+                                            for s in itmd_contracted_symbols)
+            remainder_indices = set(remainder.idx)
+            if not any(s in remainder_indices
+                       for s in contracted_itmd_indices):
+                variant_data = var
+                break
+        if variant_data is None:  # no valid variant -> can not factor
+            factored += term.expr
+            continue
 
         # now start with factoring
-        # - extract the remainder that survives the factorization (excluding
-        #   the prefactor)
-        remainder: e.Expr = _get_remainder(term, variant_data['eri_i'],
-                                           variant_data['denom_i'])
         # - find the itmd indices:
         #   for short itmds it is not necessary to minimize the itmd indices
         #   just use whatever is found
         itmd_indices = tuple(variant_data['sub'].get(s, s) for s in
                              get_symbols(itmd_cls.default_idx))
-
-        contracted_itmd_indices = tuple(variant_data['sub'].get(s, s)
-                                        for s in itmd_contracted_symbols)
-        remainder_indices = set(remainder.idx)
-        if any(s in remainder_indices for s in contracted_itmd_indices):
-            raise RuntimeError("Invalid contracted itmd indices "
-                               f"{contracted_itmd_indices} found that also "
-                               f"appear in the remainder:\n{remainder}")
 
         # - determine the prefactor of the factored term
         pref = term.pref * variant_data['factor'] / itmd.pref
